@@ -162,16 +162,24 @@ class C18(props.Prop):
             # attribution: repeat both runs with a command that treats all
             # fresh-symbol names alike; if the runs then agree up to these
             # names, the numbering of fresh symbols is the only cause
-            alt = []
-            for s in specs:
-                s2 = copy.deepcopy(s)
-                s2['model']['canon_fresh'] = True
-                s2.pop('choices', None)
-                c2, r2 = chain_of(s2)
-                v.absorb(r2)
-                alt.append(c2)
-            if alt[0]['canon'] == alt[1]['canon'] and \
-                    alt[0]['out_canon'] == alt[1]['out_canon']:
+            def rerun(extra_opts):
+                alt = []
+                for s in specs:
+                    s2 = copy.deepcopy(s)
+                    s2['model']['canon_fresh'] = True
+                    s2['opts'] = s2['opts'] + extra_opts
+                    s2.pop('choices', None)
+                    c2, r2 = chain_of(s2)
+                    v.absorb(r2)
+                    alt.append(c2)
+                return (alt[0]['canon'] == alt[1]['canon']
+                        and alt[0]['out_canon'] == alt[1]['out_canon'])
+
+            # 1. a command that ignores the number in x<n>__fresh; 2. (names
+            # derived from fresh symbols by the symbol simplifier, and the
+            # id-dependent collision test, escape that) additionally without
+            # the mutator that embeds node ids in names
+            if rerun([]) or rerun(['--no-introduce-fresh-variables']):
                 for x in v.violations:
                     if x['sig'].endswith(':timing'):
                         x['sig'] = x['sig'][:-len('timing')] + 'fresh-symbol-name'
@@ -313,15 +321,19 @@ class C18(props.Prop):
                      f'and {case["hashseeds"][1]}', 'hashseed')
         if any(x['sig'].endswith(':hashseed') for x in v.violations) and \
                 not case.get('no_attribution'):
-            c2 = copy.deepcopy(case)
-            c2['no_attribution'] = True
-            for s in c2['runs']:
-                s['model']['canon_fresh'] = True
-                s.pop('choices', None)
-            v2 = self.run_cross(c2, props.Verdict())
-            if not v2.violations or all(
+            def rerun(extra_opts):
+                c2 = copy.deepcopy(case)
+                c2['no_attribution'] = True
+                for s in c2['runs']:
+                    s['model']['canon_fresh'] = True
+                    s['opts'] = s['opts'] + extra_opts
+                    s.pop('choices', None)
+                v2 = self.run_cross(c2, props.Verdict())
+                return not v2.violations or all(
                     x['sig'].endswith('fresh-symbol-name')
-                    for x in v2.violations):
+                    for x in v2.violations)
+
+            if rerun([]) or rerun(['--no-introduce-fresh-variables']):
                 for x in v.violations:
                     if x['sig'].endswith(':hashseed'):
                         x['sig'] = x['sig'][:-len('hashseed')] + 'fresh-symbol-name'
